@@ -4,11 +4,13 @@
    Input: blocks
      begin <id> <minor version>
      enq <label> <RequestKind>        the application is about to send this request through a Handle
+     drop <label>                     the application drops the PendingReply of that call, unanswered
      recv <message>                   the transport wrapper returned Ok(message) from receive_poll
      send <message>                   the wrapper accepted the message in send_start
      flush ok                         send_poll_flush returned Ready(Ok)
      recverr <c> | flusherr <c>       the first transport error (receive / anything under a flush)
      obs <label> value|shutdown       what the application observed for that waiter
+     obs <label> dropped              (it dropped the reply future itself; the model must not have `Sent`)
      result ok|transport<c>|other|none|connect_failed|panic
      end
    Output: one line per block, `result=<r> waiters=<label>:<class>,...` in the format of the
@@ -19,7 +21,18 @@
    observable consequences): the moment a queued request is selected (`ISelHandle` is fed when a
    sent message or an observed reply needs it), requests sent by Drop impls and by library code
    (synthesised from the message they produce), and handle clone/drop counts (a Shutdown sent
-   without a request is explained by dropping the remaining handles). *)
+   without a request is explained by dropping the remaining handles).
+
+   `Selected::AbortFunctionCall(serial)` (the client notices that the reply future of a call was
+   dropped) becomes `ISelAbort serial`:
+     - in the main loop from protocol 1.16 on it is observable: `send AbortFunctionCall serial`
+       is explained by `ISelAbort serial` in phase Running (fed in any other phase the automaton
+       sends nothing and the message stays unexplained); the call must be one the application
+       did not await to its end (`abort_of_awaited_call` otherwise);
+     - below 1.16 and while draining nothing is sent and the waiter ends `Dropped` either way:
+       after a `drop <label>` line the input is fed as soon as the automaton holds that call in
+       `function_calls` and is Draining (or Running below 1.16).  A wrong `AbortFunctionCall`
+       of the automaton there shows as `not_sent` / a missing flush (result `none`). *)
 open Clientlife_model
 
 let rec pos_of_int i = if i = 1 then XH else if i land 1 = 0 then XO (pos_of_int (i lsr 1)) else XI (pos_of_int (i lsr 1))
@@ -112,7 +125,7 @@ let mapk_name = function
   | _ -> "other"
 
 (* ---------- one block ---------- *)
-type ev = Enq of string * string | Recv of string list | Send of string list | FlushOk | RecvErr of int | FlushErr of int
+type ev = Enq of string * string | DropReply of string | Recv of string list | Send of string list | FlushOk | RecvErr of int | FlushErr of int
 
 let run_block (ver : int) (events : ev list) (obs : (string * string) list) (result : string) : string =
   next_proxy := 0;
@@ -147,6 +160,34 @@ let run_block (ver : int) (events : ev list) (obs : (string * string) list) (res
        end)
   in
   let is_running () = match !st.phase with Running -> true | _ -> false in
+  (* calls whose reply future the application dropped and for which no ISelAbort was fed yet *)
+  let dropped : string list ref = ref [] in
+  let waiter_of_label (l : string) : int option =
+    Hashtbl.fold (fun w l' acc -> if l' = l then Some w else acc) labels None in
+  let label_of_call (serial : n) : string option =
+    match List.find_opt (fun e -> e.ek = MFunctionCalls && e.ekey = serial) !st.maps with
+    | Some { ew = Some w; _ } -> Hashtbl.find_opt labels (int_of_n w)
+    | _ -> None in
+  let pending_call_of_label (l : string) : n option =
+    match waiter_of_label l with
+    | None -> None
+    | Some w ->
+      (match List.find_opt (fun e -> e.ek = MFunctionCalls &&
+                                     (match e.ew with Some x -> int_of_n x = w | None -> false)) !st.maps with
+       | Some e -> Some e.ekey
+       | None -> None) in
+  (* the unobservable aborts: while draining, and in the main loop below protocol 1.16 *)
+  let silent_aborts () =
+    let silent = match !st.phase with
+      | Draining _ -> true
+      | Running -> ver < 16
+      | _ -> false in
+    if silent && !dropped <> [] then
+      dropped := List.filter (fun l ->
+        match pending_call_of_label l with
+        | Some serial -> feed (ISelAbort serial); false
+        | None -> true) !dropped
+  in
   let drain_internal () =
     let guard = ref 0 in
     while is_running () && !st.queue <> [] && !guard < 1000 do incr guard; feed ISelHandle done in
@@ -294,7 +335,16 @@ let run_block (ver : int) (events : ev list) (obs : (string * string) list) (res
                       let n = int_of_n !st.nh in
                       if n <= 1 then begin set_mismatch "unexplained_shutdown"; fin := true end
                       else for _ = 2 to n do feed_request None QHandleDropped done
-                  | "AbortFunctionCall" -> feed (ISelAbort (nn (nth x 1)))
+                  | "AbortFunctionCall" ->
+                      let serial = nn (nth x 1) in
+                      (match label_of_call serial with
+                       | Some l ->
+                           (match obs_class l with
+                            | Some "value" | Some "shutdown" -> set_mismatch ("abort_of_awaited_call:" ^ l)
+                            | _ -> ());
+                           dropped := List.filter (fun l' -> l' <> l) !dropped
+                       | None -> ());
+                      feed (ISelAbort serial)
                   | other -> set_mismatch ("unexplained_send:" ^ other); fin := true))
       end
     done
@@ -321,8 +371,10 @@ let run_block (ver : int) (events : ev list) (obs : (string * string) list) (res
   let rec go = function
     | [] -> ()
     | e :: rest ->
+      silent_aborts ();
       (match e with
        | Enq (l, k) -> pendq := !pendq @ [(l, k)]
+       | DropReply l -> dropped := !dropped @ [l]
        | Recv w ->
            let m = msg_of_words w in
            if m = MsgShutdown then settle_answered ();
@@ -345,6 +397,7 @@ let run_block (ver : int) (events : ev list) (obs : (string * string) list) (res
   (* `client.handle().clone()` before run: the first request in the queue *)
   feed_request None QHandleCloned;
   go events;
+  silent_aborts ();
   settle_all ();
   let res = match !st.phase with
     | Done None -> "ok"
@@ -356,7 +409,7 @@ let run_block (ver : int) (events : ev list) (obs : (string * string) list) (res
     let cls =
       match List.find_opt (fun (x, _) -> int_of_n x = w) !st.resolved with
       | Some (_, Sent) -> "value"
-      | Some (_, Dropped) -> "shutdown"
+      | Some (_, Dropped) -> if obs_class l = Some "dropped" then "dropped" else "shutdown"
       | None -> "pending" in
     Hashtbl.replace by_label l cls) labels;
   let ws = List.map (fun l -> l ^ ":" ^ (try Hashtbl.find by_label l with Not_found -> "unknown"))
@@ -375,6 +428,7 @@ let () =
        match words line with
        | "begin" :: _ :: v :: _ -> ver := num v; events := []; obs := []; result := "none"
        | "enq" :: l :: k :: _ -> events := Enq (l, k) :: !events
+       | "drop" :: l :: _ -> events := DropReply l :: !events
        | "recv" :: w -> events := Recv w :: !events
        | "send" :: w -> events := Send w :: !events
        | "flush" :: _ -> events := FlushOk :: !events
